@@ -66,7 +66,41 @@ func rulePendingValueForgotten(p *Prog, l *Ledger, tier string) {
 				}
 				return false
 			}
+			// what the variable may be given inside the loop: itself, zero, or the number parsed from a line
+			var foreign func(v ssa.Value, seen map[ssa.Value]bool) ssa.Value
+			foreign = func(v ssa.Value, seen map[ssa.Value]bool) ssa.Value {
+				if v == ssa.Value(ph) || seen[v] {
+					return nil
+				}
+				seen[v] = true
+				switch x := v.(type) {
+				case *ssa.Const:
+					if z, ok := constInt(x); ok && z == 0 {
+						return nil
+					}
+					return v
+				case *ssa.Phi:
+					for _, e := range x.Edges {
+						if w := foreign(e, seen); w != nil {
+							return w
+						}
+					}
+					return nil
+				case *ssa.Extract:
+					if c, ok := x.Tuple.(*ssa.Call); ok && x.Index == 0 {
+						switch calleeName(&c.Call) {
+						case "strconv.Atoi", "strconv.ParseInt", "strconv.ParseUint":
+							return nil
+						}
+					}
+					return v
+				case *ssa.Convert:
+					return foreign(x.X, seen)
+				}
+				return v
+			}
 			bad := false
+			var other ssa.Value
 			for k, e := range ph.Edges {
 				pred := ph.Block().Preds[k]
 				if !li.blocks[pred] {
@@ -75,6 +109,13 @@ func rulePendingValueForgotten(p *Prog, l *Ledger, tier string) {
 				if stale(e, pred, map[ssa.Value]bool{}) {
 					bad = true
 				}
+				if w := foreign(e, map[ssa.Value]bool{}); w != nil && other == nil {
+					other = w
+				}
+			}
+			if other != nil {
+				l.Fail(rule, name, key+"|foreign", p.Pos(st.Pos()), fmt.Sprintf("%s: the pending identifier %s, which the next cue takes as its number, is also given a value that is neither zero nor the number parsed from an identifier line (%s, at %s): a loop counter or a length written into it (an inner loop that lost its own variable) becomes the identifier of the next cue that has none", name, phiName(ph), descOf(other), p.Pos(other.Pos())))
+				continue
 			}
 			if bad {
 				l.Fail(rule, name, key, p.Pos(st.Pos()), fmt.Sprintf("%s stores the pending identifier %s into the new cue and lets it go round the loop unchanged: a later cue that has no identifier line of its own is given the number of this one", name, phiName(ph)))
